@@ -160,7 +160,14 @@ class PhasedInputReader:
         bam_sample = None if self._ignore_read_groups else sample
         try:
             readset = readset_reader.read(
-                chromosome, variants, bam_sample, reference, regions, restricted_genotypes
+                chromosome,
+                variants,
+                bam_sample,
+                reference,
+                regions,
+                restricted_genotypes,
+                # with ignored read groups all reads count as reads of the requested sample
+                numeric_sample_id=self._numeric_sample_ids[sample] if sample is not None else None,
             )
         except SampleNotFoundError:
             logger.warning("Sample %r not found in any BAM/CRAM file.", bam_sample)
